@@ -36,7 +36,7 @@ describe(
 )
 
 
-@obligation("C05-D1", "IDX sibling agreement: for each of the five tables _index writes the same (key cover -> value field) entries as the constructor's builder", floor=18)
+@obligation("C05-D1", "IDX sibling agreement: for each of the five tables _index writes the same (key cover -> value field) entries as the constructor's builder", floor=10)
 def d1(cx: Cx, ob: Ob) -> None:
     check_table_roles(cx, ob, list(TABLES))
 
@@ -350,6 +350,8 @@ def check_match_record(cx: Cx, ob: Ob) -> None:
             continue
         hs = cx.summary(h, ob.id)
         ob.site(f"{h.where} {h.qualname}", "comparison helper")
+        if not any(g.kind == "guard" and g.a == ("param", "case_sensitive") for _, ctx in hs.returns() for g in ctx.guards):
+            ob.violate(h.qualname, h.where, f"{name} ignores its case_sensitive argument", detail="ignores-case-flag")
         for t, ctx in hs.returns():
             cs = [g for g in ctx.guards if g.kind == "guard" and g.a == ("param", "case_sensitive")]
             if cs and cs[0].b is True:
